@@ -6,6 +6,7 @@ package routing
 
 import (
 	"sync"
+	"time"
 
 	"github.com/dtn7/dtn7-go/pkg/bpv7"
 )
@@ -29,6 +30,7 @@ func newIdTuple(bndl *bpv7.Bundle) idTuple {
 // outbounding bundles.
 type IdKeeper struct {
 	data      map[idTuple]uint64
+	used      map[idTuple]time.Time
 	mutex     sync.Mutex
 	autoClean bool
 }
@@ -37,6 +39,7 @@ type IdKeeper struct {
 func NewIdKeeper() IdKeeper {
 	return IdKeeper{
 		data:      make(map[idTuple]uint64),
+		used:      make(map[idTuple]time.Time),
 		autoClean: true,
 	}
 }
@@ -53,6 +56,8 @@ func (idk *IdKeeper) update(bndl *bpv7.Bundle) {
 		idk.data[tpl] = 0
 	}
 
+	idk.used[tpl] = time.Now()
+
 	bndl.PrimaryBlock.CreationTimestamp[1] = idk.data[tpl]
 	idk.mutex.Unlock()
 
@@ -61,15 +66,20 @@ func (idk *IdKeeper) update(bndl *bpv7.Bundle) {
 	}
 }
 
-// clean removes states which are older an hour and aren't the epoch time.
+// clean removes states which were not used for ten minutes and aren't the epoch time.
+//
+// A state's age is measured from its last use, not from the creation time it stands for. Otherwise, the state for a
+// creation time lying further in the past, e.g., of bundles stamped by their application some minutes ago, would be
+// removed right after its update and all these bundles would get the sequence number zero.
 func (idk *IdKeeper) clean() {
 	idk.mutex.Lock()
 
-	var threshold = bpv7.DtnTimeNow() - 60*60*24
+	var threshold = time.Now().Add(-10 * time.Minute)
 
 	for tpl := range idk.data {
-		if tpl.time < threshold && tpl.time != bpv7.DtnTimeEpoch {
+		if idk.used[tpl].Before(threshold) && tpl.time != bpv7.DtnTimeEpoch {
 			delete(idk.data, tpl)
+			delete(idk.used, tpl)
 		}
 	}
 	idk.mutex.Unlock()
